@@ -53,6 +53,10 @@ func (m *Monitors) recordDigest(n *Node, hBefore int64) {
 		return
 	}
 	d := m.Digest(n)
+	if m.selfDigest == nil {
+		m.selfDigest = map[int]string{}
+	}
+	m.selfDigest[n.Idx] = d
 	k := fmt.Sprintf("%d/%d", n.Idx, hBefore)
 	r := m.ref()
 	r.After[k] = append(r.After[k], d)
@@ -66,6 +70,12 @@ func (m *Monitors) recordDigest(n *Node, hBefore int64) {
 func (m *Monitors) noteStart(n *Node) {
 	if m.nt.Sc.Mode != "c07" {
 		return
+	}
+	if m.selfDigest == nil {
+		m.selfDigest = map[int]string{}
+	}
+	if n.restarts == 0 {
+		m.selfDigest[n.Idx] = m.Digest(n)
 	}
 	if n.restarts == 0 {
 		m.ref().Start[fmt.Sprintf("%d/%d", n.Idx, n.cs.VerifRoundState().Height)] = m.Digest(n)
@@ -149,6 +159,27 @@ func truncateWAL(n *Node, t int) (cut bool, lastLineLen int) {
 func (m *Monitors) onRestart(n *Node) {
 	nt := m.nt
 	if nt.Ref == nil {
+		return
+	}
+	defer func() {
+		// the state this life of the node begins with (after the comparisons above)
+		if m.selfDigest == nil {
+			m.selfDigest = map[int]string{}
+		}
+		m.selfDigest[n.Idx] = m.Digest(n)
+	}()
+	if n.restarts >= 2 {
+		// second crash: the uncrashed reference no longer matches this node's history. When the crash
+		// hit the WAL record of the input itself, every earlier input had been processed and logged
+		// completely, so the replay must restore the state this node itself had after its last input.
+		if n.diedFirstWrite && m.selfDigest[n.Idx] != "" {
+			got := m.Digest(n)
+			m.compared++
+			if got != m.selfDigest[n.Idx] {
+				m.report("C07", map[string]string{"kind": "replay-state-differs", "site": "catchupReplay", "crash": "second"},
+					fmt.Sprintf("node %d killed a second time at %q (before the record of a new input was written) and restarted: the round state after WAL replay is not the state it had when its last input had been processed.\n   after replay: %s\n   before crash: %s", n.Idx, n.diedAt, got, m.selfDigest[n.Idx]))
+			}
+		}
 		return
 	}
 	h := n.cs.VerifRoundState().Height
